@@ -6,8 +6,9 @@ import core
 from props import smf_common as sc
 
 THEOREMS_DEPEND_ON = ['Gen/AgreeMeta.v']
-CHARSETS = ['latin1', 'utf-8', 'cp1252', 'shift_jis', 'utf-16', 'ascii', 'cp437', 'utf-32', 'koi8-r']
-SAMPLES = ['', 'plain ascii', 'caf\u00e9 \u00fc\u00df', '\u20ac euro', '\u65e5\u672c\u8a9e \u30c6\u30b9\u30c8', '\u041f\u0440\u0438\u0432\u0435\u0442', 'x' * 200, '\u00ff\u0100', 'tab\there']
+CHARSETS = ['latin1', 'utf-8', 'cp1252', 'shift_jis', 'utf-16', 'ascii', 'cp437', 'utf-32', 'koi8-r',
+            'utf-16-le', 'utf-16-be', 'utf-32-be', 'utf-7']          # the last four are not supersets of ASCII: plain text encodes to other bytes
+SAMPLES = ['', 'plain ascii', 'Piano 1', 'a+b-c', 'caf\u00e9 \u00fc\u00df', '\u20ac euro', '\u65e5\u672c\u8a9e \u30c6\u30b9\u30c8', '\u041f\u0440\u0438\u0432\u0435\u0442', 'x' * 200, '\u00ff\u0100', 'tab\there']
 
 
 def charset_now():
